@@ -104,7 +104,7 @@ InitNode(n) ==
    child |-> [st |-> "none"]]     \* the forked dump writer as the operating system sees it: none / run / ok / fail    \* code versions (C17): version the method-name table was built for / highest version of the node's code
 
 Init ==
-  /\ node = [n \in Nodes |-> IF n \in Voters0 \cup Observers THEN InitNode(n) ELSE [alive |-> FALSE]]
+  /\ node = [n \in Nodes |-> IF n \in Voters0 \cup Observers THEN InitNode(n) ELSE [alive |-> FALSE, gen |-> 0]]
   /\ chan = [i \in Nodes |-> [j \in Nodes |-> <<>>]]
   /\ alive = IF InitConnected THEN {{i, j} : i, j \in Voters0 \ Isolated0} \ {{i} : i \in Voters0} ELSE {}
   /\ up = IF InitConnected THEN {<<i, j>> \in (Voters0 \ Isolated0) \X (Voters0 \ Isolated0) : i # j} ELSE {}
@@ -740,15 +740,17 @@ SubmitOp(n, c, z, wantCb) == SubmitCmd(n, c, c, z, wantCb)
 
 (* an operator starts a node that is not running (a spare that is being added, or a removed / crashed node *)
 (* returning as a fresh empty process) with the member list `members`                                      *)
+GenOf(s) == s.rcnt \div 1000          \* which process of its node a running process is (read off its request ids)
 StartFresh(n, members) ==
   /\ ~node[n].alive
-  /\ node' = [node EXCEPT ![n] = [InitNode(n) EXCEPT !.others = members \ {n}, !.conn = {}]]
+  \* (request ids of a process start at a value of its own - 1000 * the number of processes this node has had before it)
+  /\ node' = [node EXCEPT ![n] = [InitNode(n) EXCEPT !.others = members \ {n}, !.conn = {}, !.rcnt = 1000 * node[n].gen]]
   /\ UNCHANGED <<chan, alive, up, cbs, nexc, snaps>>
 
 (* a process is stopped: its connections die (the peers notice on their own), its memory is gone *)
 Stop(n) ==
   /\ node[n].alive
-  /\ node' = [node EXCEPT ![n] = [alive |-> FALSE]]
+  /\ node' = [node EXCEPT ![n] = [alive |-> FALSE, gen |-> GenOf(node[n]) + 1]]
   /\ alive' = {p \in alive : n \notin p}
   /\ up' = {u \in up : u[1] # n}
   /\ chan' = [i \in Nodes |-> [j \in Nodes |-> IF i = n \/ j = n THEN <<>> ELSE chan[i][j]]]
@@ -761,7 +763,7 @@ DiskOf(s) == [jlog |-> s.log, torn |-> FALSE, meta |-> s.metaCommit, dump |-> IF
 
 Crash(n) ==
   /\ Journal /\ node[n].alive
-  /\ node' = [node EXCEPT ![n] = [alive |-> FALSE, disk |-> DiskOf(node[n])]]
+  /\ node' = [node EXCEPT ![n] = [alive |-> FALSE, disk |-> DiskOf(node[n]), gen |-> GenOf(node[n]) + 1]]
   /\ alive' = {p \in alive : n \notin p}
   /\ up' = {u \in up : u[1] # n}
   \* what the dead process had already sent is still on its way (the kernel delivers it before the end-of-stream)
@@ -778,10 +780,10 @@ RestartNode(n, d) ==
 
 Restart(n) ==
   /\ Journal /\ ~node[n].alive /\ "disk" \in DOMAIN node[n]
-  /\ node' = [node EXCEPT ![n] = RestartNode(n, node[n].disk)]
+  /\ node' = [node EXCEPT ![n] = [RestartNode(n, node[n].disk) EXCEPT !.rcnt = 1000 * node[n].gen]]
   \* modelling assumption: by the time a process has been started again, whatever its previous incarnation had sent
-  \* has been read or dropped by the peers (request ids start from 1 again after a restart: a reply to the previous
-  \* incarnation that is still on its way could be matched to a new request - not explored)
+  \* has been read or dropped by the peers.  (What it had sent may still sit in a peer's queue of commands - a forwarded
+  \* command waiting for a leader - and be answered to the new process: its request ids differ from the old one's.)
   /\ chan' = [chan EXCEPT ![n] = [j \in Nodes |-> <<>>]]
   /\ UNCHANGED <<alive, up, cbs, nexc, snaps>>
 
